@@ -283,6 +283,27 @@ func generate(family string, rng *rand.Rand, thorough bool) []plan {
 				}
 			}
 		}
+		// the producer is done before the stage is created (a filled, closed buffered channel, as pipe.Seq hands one
+		// over), or has filled the buffer and goes on afterwards
+		for rep := 0; rep < 2*mul; rep++ {
+			for _, s := range seqStages(rng) {
+				cp := 1 + rng.Intn(5)
+				n := cp
+				if rep%3 == 2 {
+					n = cp + 1 + rng.Intn(3) // more than fits: the rest is sent while the stage runs
+				} else if rep%3 == 1 {
+					n = 1 + rng.Intn(cp)
+				}
+				add(plan{stage: s, icaps: []int{cp}, inputs: [][]int{anyInput(rng, n)}, sched: rnd(4, 2, 4, 0, 0, 0, nil), maxMoves: 30, drain: true, gen: "prefilled"})
+			}
+		}
+		// Take of "everything": any n >= 0, also one no input can reach
+		for rep := 0; rep < mul; rep++ {
+			big := []int{1 << 31, 1<<31 - 1, 1 << 40, 1<<62 + 12345, 1<<63 - 1}[rep%5]
+			for cp := 0; cp <= 2; cp++ {
+				add(plan{stage: &Stage{Kind: "take", N: big}, icaps: []int{cp}, inputs: [][]int{anyInput(rng, rng.Intn(6))}, sched: rnd(4, 2, 4, 0, 0, 0, nil), maxMoves: 30, drain: true, gen: "random"})
+			}
+		}
 		// Seq / ToSeq: identity
 		for r := 0; r < 6*mul; r++ {
 			xs := anyInput(rng, rng.Intn(7))
